@@ -245,6 +245,7 @@ class H:
     def __init__(self, a):
         # cyarray: minimum of an empty array is 0
         self.minimum = float(min(a)) if len(a) else 0.0
+    def update_min_max(self): pass      # (this stub is always current)
 class PA:
     gpu = None
     def __init__(self, props):
